@@ -561,3 +561,105 @@ entries_harness!(c06_open_trailing_partial, { 8192 + C_SZ + C_SZ }, [EntrySpec {
 entries_harness!(c06_open_only_partial, { 8192 + C_SZ }, [EntrySpec { kind: 1, bit: false, partial: true }], 0, 0);
 // a finished batch: partial, partial, final -> all three kept
 entries_harness!(c06_open_finished_batch, { 8192 + 3 * C_SZ }, [EntrySpec { kind: 1, bit: false, partial: true }, EntrySpec { kind: 1, bit: false, partial: true }, EntrySpec { kind: 1, bit: false, partial: false }], 0, 3);
+
+// ------------------------------------------------------------------------------ C07 torn writes
+
+/// A header flush that was torn: slot 0 holds the valid current header (length 1, bit false); the
+/// flush of the next header (length 2, bit true -> slot 1) wrote only its first K bytes over a slot
+/// that held either zeros (OLD = false) or the previous, older header (OLD = true).
+/// Reopening must succeed and fall back to slot 0.
+fn torn_header<const K: usize, const OLD: bool>() {
+    let mut w = W::<8192>::new();
+    ref_header_at(&mut w, 0, &base_header(1), false);
+    if OLD {
+        // what slot 1 held before: the header flushed two generations ago (length 0, bit false)
+        ref_header_at(&mut w, 4096, &base_header(0), false);
+    }
+    // the new frame, built aside, then only K bytes of it reach the store
+    let mut n = W::<512>::new();
+    let total = ref_header_at(&mut n, 0, &base_header(2), true);
+    assert!(K < total);
+    let mut i = 0;
+    while i < K {
+        w.buf[4096 + i] = n.buf[i];
+        i += 1;
+    }
+    let out = open_image(w.buf, &None);
+    assert!(out.is_ok());
+    let out = out.unwrap();
+    assert!(header_matches(&out.header, &base_header(1)));
+    kani::cover!(true, "reached end");
+    std::mem::forget(out);
+}
+macro_rules! torn_header_harness {
+    ($name:ident, $k:expr, $old:expr) => {
+        #[kani::proof]
+        #[kani::stub(std::fmt::format, stub_format)]
+        #[kani::stub(std::string::String::from_utf8, stub_from_utf8)]
+        fn $name() {
+            torn_header::<$k, $old>();
+        }
+    };
+}
+torn_header_harness!(c07_torn_header_k1, 1, false);
+torn_header_harness!(c07_torn_header_k6, 6, false);
+torn_header_harness!(c07_torn_header_k8, 8, false);
+torn_header_harness!(c07_torn_header_k9, 9, false);
+torn_header_harness!(c07_torn_header_k100, 100, false);
+torn_header_harness!(c07_torn_header_k270, 270, false);
+torn_header_harness!(c07_torn_header_over_old_k8, 8, true);
+torn_header_harness!(c07_torn_header_over_old_k60, 60, true);
+torn_header_harness!(c07_torn_header_over_old_k150, 150, true);
+
+/// A torn entry append.  STALE = false: the file simply ends after K bytes of the new entry.
+/// STALE = true: the bytes after the cut belong to an older (previous header bit) entry that a
+/// crash between header write and truncate left behind.  Either way the torn entry is ignored and
+/// the pending list is what it was before the call (one clear entry).
+fn torn_entry<const K: usize, const STALE: bool, const N: usize>() {
+    let mut w = W::<N>::new();
+    ref_header_at(&mut w, 0, &base_header(1), false);
+    let first = ref_entry_at(&mut w, 8192, &RefEntry { nodes: &[], upgrade: None, bitfield: Some((true, 0, 1)) }, false, false);
+    let at = 8192 + first;
+    if STALE {
+        // same shape and size as the new entry but different content (other hashes / signature)
+        let nodes = vec![cnode(2, 3, 0x55), cnode(1, 7, 0x56)];
+        ref_entry_at(&mut w, at, &RefEntry { nodes: &nodes, upgrade: Some((0, 1, 2, &[0x66u8; 64])), bitfield: Some((false, 1, 9)) }, false, true);
+    }
+    let mut n = W::<256>::new();
+    let (nodes, up, bf) = sample_append();
+    let total = ref_entry_at(&mut n, 0, &RefEntry { nodes: &nodes, upgrade: Some((up.0, up.1, up.2, &up.3)), bitfield: Some(bf) }, false, false);
+    assert!(K < total);
+    let mut i = 0;
+    while i < K {
+        w.buf[at + i] = n.buf[i];
+        i += 1;
+    }
+    assert!(if STALE { N == at + A_SZ } else { N == at + K });
+    let out = open_image(w.buf, &None);
+    assert!(out.is_ok());
+    let mut out = out.unwrap();
+    let entries = out.entries.take().unwrap_or_default();
+    assert!(entries.len() == 1);
+    assert!(expect_entry(&entries[0], 1));
+    assert!(out.oplog.entries_byte_length == first as u64);
+    kani::cover!(true, "reached end");
+    std::mem::forget(entries);
+    std::mem::forget(out);
+}
+macro_rules! torn_entry_harness {
+    ($name:ident, $k:expr, $stale:expr, $n:expr) => {
+        #[kani::proof]
+        #[kani::stub(std::fmt::format, stub_format)]
+        #[kani::stub(std::string::String::from_utf8, stub_from_utf8)]
+        fn $name() {
+            torn_entry::<$k, $stale, { $n }>();
+        }
+    };
+}
+torn_entry_harness!(c07_torn_entry_end_k3, 3, false, 8192 + C_SZ + 3);
+torn_entry_harness!(c07_torn_entry_end_k8, 8, false, 8192 + C_SZ + 8);
+torn_entry_harness!(c07_torn_entry_end_k9, 9, false, 8192 + C_SZ + 9);
+torn_entry_harness!(c07_torn_entry_end_k148, 148, false, 8192 + C_SZ + 148);
+torn_entry_harness!(c07_torn_entry_over_stale_k8, 8, true, 8192 + C_SZ + A_SZ);
+torn_entry_harness!(c07_torn_entry_over_stale_k40, 40, true, 8192 + C_SZ + A_SZ);
+torn_entry_harness!(c07_torn_entry_over_stale_k148, 148, true, 8192 + C_SZ + A_SZ);
